@@ -94,7 +94,43 @@ func RunOnSeed(p *Prop, dir, tier string) ([]string, error) {
 		}()
 		p.Run(prog, r, "quick")
 	}()
-	return r.NewViolations(), nil
+	// only what the seeded change ADDS counts: subtract what the same rules
+	// report on the unchanged tree (known findings, defects awaiting a fix)
+	base, err := baselineKeys(p)
+	if err != nil {
+		return nil, err
+	}
+	var out []string
+	for _, v := range r.NewViolations() {
+		k, _, _ := strings.Cut(v, " @")
+		if !base[k] {
+			out = append(out, v)
+		}
+	}
+	return out, nil
+}
+
+var baseCache = map[string]map[string]bool{}
+
+func baselineKeys(p *Prop) (map[string]bool, error) {
+	if b, ok := baseCache[p.ID]; ok {
+		return b, nil
+	}
+	prog, err := core.Load(core.LoadOpts{Patterns: p.Patterns})
+	if err != nil {
+		return nil, fmt.Errorf("baseline load: %w", err)
+	}
+	r := core.NewReport(p.ID, "quick")
+	func() {
+		defer func() { recover() }()
+		p.Run(prog, r, "quick")
+	}()
+	b := map[string]bool{}
+	for _, k := range r.Violations() {
+		b[k] = true
+	}
+	baseCache[p.ID] = b
+	return b, nil
 }
 
 func seedDirs() []string {
